@@ -18,11 +18,13 @@ func init() {
 		Title: "Cluster state equals a fresh recomputation from the API",
 		Explanation: "Decides the structural conditions of 'incremental = from scratch': (1) copy coverage — ShallowCopy carries all StateNode fields; newStateFromNodeClaim carries every field except NodeClaim from the old node; newStateFromNode carries the non-aggregate fields and rebuilds every aggregate (populateResourceRequests/populateVolumeLimits must succeed), each aggregate being initialised or nil-guarded in updateForPod; DeepCopyInto gives every reference-typed field a fresh value; " +
 			"(2) updateForPod and cleanupForPod touch the same aggregate field set; " +
-			"(3) identity changes: a changed provider id reaches cleanupNode/cleanupNodeClaim, cleanups and both constructors reach updateNodePoolResources and drop the name→id entry, every store to markedForDeletion is bracketed by ShallowCopy and updateNodePoolResources(old, n), pod usage updates are followed by cleanupOldBindings and the binding write; " +
+			"(3) identity changes: a changed provider id reaches cleanupNode/cleanupNodeClaim, cleanups and both constructors reach updateNodePoolResources and drop the name→id entry, every store to markedForDeletion is bracketed by ShallowCopy and updateNodePoolResources(old, n), pod usage updates are followed by cleanupOldBindings and the binding write; within one UpdateNode / UpdateNodeClaim the name→id entry is read (change detection, cleanup of the old id) before it is overwritten, and it is recorded only once the state node was built; " +
+			"(3b) re-delivery: updateForPod is an idempotent upsert — every per-pod record (request / limit maps, disruption cost, HostPortUsage.reserved, VolumeUsage.podVolumes) is overwritten under the pod's key with a value that does not depend on the previous entry, and HostPortUsage.Add / VolumeUsage.Add replace (or delete) the entry on every path; " +
 			"(4) the state informers translate NotFound into the Delete* call and everything else into Update*; " +
 			"(5) all accesses to nodes, bindings, nodeNameToProviderID, nodeClaimNameToProviderID and nodePoolResources hold Cluster.mu (helpers inherit the lock from every caller).",
-		NotCovered: []string{"numeric equality of aggregates", "informer delivery semantics (level-triggered reconciliation is assumed)", "the duplicate provider-id corner (cleanup helpers index c.nodes[id] without a presence check)"},
-		Rules:      c11Rules,
+		NotCovered: []string{"numeric equality of aggregates", "informer delivery semantics (level-triggered reconciliation is assumed)", "the duplicate provider-id corner (cleanup helpers index c.nodes[id] without a presence check)",
+			"VolumeUsage.volumes (the union over the node's pods) only grows in Add: a pod re-delivered with fewer volumes keeps its old ids in the aggregate until the next DeletePod / node rebuild (upstream behaviour; only the per-pod record podVolumes is decided to be replaced)"},
+		Rules: c11Rules,
 	})
 }
 
@@ -120,6 +122,11 @@ func c11RulesBase(tier string) []Rule {
 			return rs
 		}},
 		DOM{ID: "C11.DOM1", Fn: "(*state.Cluster).UpdateNode", Sink: `^mapupdate \$0\.nodes\[`, Gates: gates(G(`+^\(\*state\.Cluster\)\.newStateFromNode\(.*\)#1 == nil$`))},
+		// a name→id entry exists only for a state node that was built: cleanupNode dereferences c.nodes[id] of every entry it finds
+		DOM{ID: "C11.DOM1b", Fn: "(*state.Cluster).UpdateNode", Sink: `^mapupdate \$0\.nodeNameToProviderID\[`, Gates: gates(G(`+^\(\*state\.Cluster\)\.newStateFromNode\(.*\)#1 == nil$`))},
+		// identity changes are detected by comparing the recorded id of the object's name with its current one, and the
+		// old state node is found through the same entry: within one Update* every read of the entry precedes its overwrite
+		core.Custom{ID: "C11.ORD1", Kind: "ORDER", Run: c11ReadBeforeOverwrite},
 
 		// ---- cleanups
 		POST{ID: "C11.POST1g", Fn: cnc, FromLit: `-^\$0\.nodeClaimNameToProviderID\[\$1\] == ""$`, Must: []string{upr}},
@@ -157,6 +164,9 @@ func c11RulesBase(tier string) []Rule {
 		// terminal pods are completions, everything else an update
 		DOM{ID: "C11.DOM5", Fn: "(*state.Cluster).UpdatePod", Sink: `^call \(\*state\.Cluster\)\.updateNodeUsageFromPod\(`, Gates: gates(G(`-^utils/pod\.IsTerminal\(\$2\)$`))},
 		DOM{ID: "C11.DOM5b", Fn: "(*state.Cluster).UpdatePod", Sink: `^call \(\*state\.Cluster\)\.updateNodeUsageFromPodCompletion\(`, Gates: gates(G(`+^utils/pod\.IsTerminal\(\$2\)$`))},
+		// the same pod is delivered again and again (level-triggered reconcile, recreated under the same name): applying
+		// updateForPod twice must leave what applying it once (with the latest pod) leaves
+		core.Custom{ID: "C11.IDEM1", Kind: "IDEM", Run: c11IdempotentUpsert},
 
 		// ---- informers
 		POST{ID: "C11.INF1", Fn: "(*controllers/state/informer.NodeController).Reconcile", FromLit: `+^apim/api/errors\.IsNotFound\(iface:\(cr/client\.Reader\)\.Get\(`, Must: []string{`^call \(\*state\.Cluster\)\.DeleteNode\(\$0\.cluster, \$2\.NamespacedName\.Name\)$`}},
@@ -656,4 +666,247 @@ func c11VolumeAggregate(w *core.World, id string) []core.Result {
 		out = append(out, core.OK(id, "WSET", construct, n, fmt.Sprintf("%d methods: no removal from the aggregate; DeletePod rebuilds it", n)))
 	}
 	return out
+}
+
+// C11.ORD1: within one UpdateNode (UpdateNodeClaim), private helpers included, no write of nodeNameToProviderID[name]
+// (nodeClaimNameToProviderID[name]) — update or delete — can be followed by a read of the same entry. newStateFromNode
+// decides "the provider id changed" by comparing the recorded id with the current one and cleanupNode finds the old
+// state node through the recorded id; both must see the entry of the previous reconcile, not the one being written.
+func c11ReadBeforeOverwrite(w *core.World, id string) []core.Result {
+	var out []core.Result
+	total := 0
+	for _, spec := range []struct{ root, field, what string }{
+		{"(*state.Cluster).UpdateNode", "nodeNameToProviderID", "Node"},
+		{"(*state.Cluster).UpdateNodeClaim", "nodeClaimNameToProviderID", "NodeClaim"},
+	} {
+		root := w.Fn(spec.root)
+		if root == nil {
+			out = append(out, core.Anchor(id, "ORDER", spec.root))
+			continue
+		}
+		construct := "ORDER:" + spec.root + ":" + spec.field
+		acc, cone := w.ConeMapAccesses(root, regexp.MustCompile(`^\$0\.`+spec.field+`$`), 4)
+		keys := map[string]bool{}
+		nUpd := 0
+		for _, a := range acc {
+			if a.Write {
+				keys[a.Key] = true
+				if !a.Del {
+					nUpd++
+				}
+			}
+		}
+		isW, isR := map[ssa.Instruction]bool{}, map[ssa.Instruction]bool{}
+		desc := map[ssa.Instruction]string{}
+		nR := 0
+		for _, a := range acc {
+			desc[a.In] = w.RenderAccess(a) + " in " + core.FnName(a.Fn)
+			switch {
+			case a.Write:
+				isW[a.In] = true
+			case keys[a.Key] || a.Key == "*":
+				isR[a.In] = true
+				nR++
+			}
+		}
+		// confirmed by hand: one update (Update*) and one delete (cleanup*); the comma-ok lookup of the change detection
+		// (newStateFrom*) and the lookup of the old id (cleanup*)
+		if nUpd < 1 || nR < 2 {
+			out = append(out, core.Bad(id, "ORDER", construct, w.Pos(root.Pos()), fmt.Sprintf("vacuous: %d update(s) of %s[name] and %d read(s) of that entry found in %s and its helpers, 1 and 2 confirmed by hand — the identity bookkeeping moved (idiom not recognised)", nUpd, spec.field, nR, spec.root)))
+			continue
+		}
+		total += len(isW) + nR
+		for _, p := range w.EventOrder(root, cone, isW, isR) {
+			d := func(in ssa.Instruction) string {
+				if s, ok := desc[in]; ok {
+					return "`" + clipStr(s, 110) + "`"
+				}
+				return "`" + clipStr(w.RenderInstr(in), 110) + "` (performs it)"
+			}
+			out = append(out, core.Bad(id, "ORDER", construct, w.InstrPos(p.First),
+				fmt.Sprintf("in %s the %s name→provider-id entry is written by %s and read afterwards by %s (@%s): the provider-id change detection / the cleanup of the old id must see the entry recorded by the previous reconcile — after the overwrite old and new id always agree and the state node under the old provider id is never cleaned up",
+					core.FnName(p.In), spec.what, d(p.First), d(p.Then), w.InstrPos(p.Then))))
+		}
+	}
+	if len(out) == 0 {
+		out = append(out, core.OK(id, "ORDER", "ORDER:Update*:name→id", total, "every read of the name→id entry precedes its overwrite in UpdateNode and UpdateNodeClaim (helpers included)"))
+	}
+	return out
+}
+
+// C11.IDEM1: updateForPod is an idempotent upsert. Its cone is updateForPod with its private helpers plus the methods it
+// calls on the node's own aggregates ($0.hostPortUsage, $0.volumeUsage, …) with theirs. A per-pod record is a map keyed
+// by the pod's NamespacedName that the cone updates.
+//
+//	(value)  the value stored does not derive from the map's previous content (no lookup / range / pass of the same map
+//	         in the backward slice of the value, helpers with one return seen through);
+//	(always) an aggregate method replaces or deletes the pod's entry on every path to a return (no "keep the first").
+func c11IdempotentUpsert(w *core.World, id string) []core.Result {
+	const up = "(*state.StateNode).updateForPod"
+	fn := w.Fn(up)
+	if fn == nil {
+		return []core.Result{core.Anchor(id, "IDEM", up)}
+	}
+	roots := []*ssa.Function{fn}
+	seenRoot := map[*ssa.Function]bool{fn: true}
+	recv := regexp.MustCompile(`^\$0\.\w+$`)
+	w.WithHelpers(fn, func(f *ssa.Function, _ ssa.Instruction) {
+		for _, b := range f.Blocks {
+			for _, in := range b.Instrs {
+				call, ok := in.(*ssa.Call)
+				if !ok {
+					continue
+				}
+				callee := call.Call.StaticCallee()
+				if callee == nil || callee.Signature.Recv() == nil || len(callee.Blocks) == 0 || len(call.Call.Args) == 0 ||
+					!core.IsKarpenterFn(callee) || core.IsTestSupport(callee) || seenRoot[callee] {
+					continue
+				}
+				if recv.MatchString(w.Render(call.Call.Args[0])) {
+					seenRoot[callee] = true
+					roots = append(roots, callee)
+				}
+			}
+		}
+	})
+	if len(roots) < 3 {
+		return []core.Result{core.Bad(id, "IDEM", "IDEM:"+up, w.Pos(fn.Pos()), fmt.Sprintf("vacuous: updateForPod calls %d method(s) on the node's own aggregates, 2 confirmed by hand (hostPortUsage, volumeUsage)", len(roots)-1))}
+	}
+	var out []core.Result
+	n := 0
+	seenMU := map[*ssa.MapUpdate]bool{}
+	for _, r := range roots {
+		perPod := map[string]bool{}
+		w.WithHelpers(r, func(f *ssa.Function, _ ssa.Instruction) {
+			for _, b := range f.Blocks {
+				for _, in := range b.Instrs {
+					mu, ok := in.(*ssa.MapUpdate)
+					if !ok || seenMU[mu] {
+						continue
+					}
+					mt, ok := mu.Map.Type().Underlying().(*types.Map)
+					if !ok || core.TypeStr(mt.Key()) != "apim/types.NamespacedName" {
+						continue
+					}
+					seenMU[mu] = true
+					n++
+					mapR := w.Render(mu.Map)
+					perPod[mapR] = true
+					if via := sliceReadsMap(w, f, mu.Value, mapR, map[ssa.Value]bool{}); via != "" {
+						out = append(out, core.Bad(id, "IDEM", "IDEM:"+core.FnName(r)+":"+mapR, w.InstrPos(in),
+							fmt.Sprintf("%s: the per-pod record %s[pod] is written with a value computed from the map's previous content (`%s` via `%s`): the update is not idempotent — a pod delivered twice (or recreated under the same name with other values) leaves more than a fresh computation from the API would",
+								core.FnName(f), mapR, clipStr(w.Render(mu.Value), 90), clipStr(via, 70))))
+					}
+				}
+			}
+		})
+		if r == fn {
+			continue
+		}
+		for _, mapR := range core.SortedKeys(perPod) {
+			q := regexp.QuoteMeta(mapR)
+			for _, res := range (MPT{ID: id, Fn: core.FnName(r), Ret: core.RetAny, Gates: gates(G(`instr:^mapupdate `+q+`\[`, `instr:^call delete\(`+q+`, `))}).Check(w) {
+				if res.Status != core.Discharged {
+					res.Kind = "IDEM"
+					res.Msg += " — the pod's entry in " + mapR + " is neither replaced nor deleted on that path: a pod delivered again keeps its stale record"
+					out = append(out, res)
+				}
+			}
+		}
+	}
+	// confirmed by hand: podRequests, podLimits, daemonSetRequests, daemonSetLimits, podDisruptionCosts in updateForPod;
+	// reserved in HostPortUsage.Add; podVolumes in VolumeUsage.Add
+	if n < 7 {
+		out = append(out, core.Bad(id, "IDEM", "IDEM:"+up, w.Pos(fn.Pos()), fmt.Sprintf("vacuous: %d per-pod record updates found on the updateForPod path, 7 confirmed by hand", n)))
+	}
+	if len(out) == 0 {
+		out = append(out, core.OK(id, "IDEM", "IDEM:"+up, n, fmt.Sprintf("%d per-pod records in %d functions: each overwritten with a value independent of the previous entry; aggregate methods replace or delete on every path", n, len(roots))))
+	}
+	return out
+}
+
+// sliceReadsMap: does the backward data slice of v (inside its function; calls of private helpers with a single return
+// are entered) contain a read of the map rendered mapR? Returns the rendering of the reading value, "" if none.
+func sliceReadsMap(w *core.World, owner *ssa.Function, v ssa.Value, mapR string, seen map[ssa.Value]bool) string {
+	if v == nil || seen[v] || len(seen) > 4000 {
+		return ""
+	}
+	seen[v] = true
+	switch v.(type) {
+	case *ssa.Const, *ssa.Parameter, *ssa.Global, *ssa.Function, *ssa.Builtin, *ssa.FreeVar:
+		return ""
+	}
+	if _, isMap := v.Type().Underlying().(*types.Map); isMap && w.Render(v) == mapR {
+		return w.Render(v)
+	}
+	switch x := v.(type) {
+	case *ssa.Lookup:
+		if w.Render(x.X) == mapR {
+			return w.Render(x)
+		}
+	case *ssa.Range:
+		if w.Render(x.X) == mapR {
+			return "range " + mapR
+		}
+	case *ssa.Alloc:
+		// a local: whatever is stored into it (or into its elements / fields)
+		var follow func(addr ssa.Value) string
+		follow = func(addr ssa.Value) string {
+			refs := addr.Referrers()
+			if refs == nil {
+				return ""
+			}
+			for _, r := range *refs {
+				switch y := r.(type) {
+				case *ssa.Store:
+					if y.Addr == addr {
+						if s := sliceReadsMap(w, owner, y.Val, mapR, seen); s != "" {
+							return s
+						}
+					}
+				case *ssa.IndexAddr:
+					if y.X == addr {
+						if s := follow(y); s != "" {
+							return s
+						}
+					}
+				case *ssa.FieldAddr:
+					if y.X == addr {
+						if s := follow(y); s != "" {
+							return s
+						}
+					}
+				}
+			}
+			return ""
+		}
+		return follow(x)
+	case *ssa.Call:
+		if h, ret, leave, ok := w.EnterHelper(owner, x); ok {
+			s := sliceReadsMap(w, h, ret, mapR, seen)
+			leave()
+			if s != "" {
+				return s
+			}
+		}
+	case *ssa.Extract:
+		if h, ret, leave, ok := w.EnterHelper(owner, x); ok {
+			s := sliceReadsMap(w, h, ret, mapR, seen)
+			leave()
+			if s != "" {
+				return s
+			}
+		}
+	}
+	if in, ok := v.(ssa.Instruction); ok {
+		for _, op := range in.Operands(nil) {
+			if op == nil || *op == nil {
+				continue
+			}
+			if s := sliceReadsMap(w, owner, *op, mapR, seen); s != "" {
+				return s
+			}
+		}
+	}
+	return ""
 }
